@@ -18,7 +18,7 @@ ASSUMPTIONS = ['secp256k1_xonly_pubkey_parse is an uninterpreted predicate; secp
                'SHA-256 compression uninterpreted on symbolic input', 'process environment modelled (getopt_long, ttys, printf capture); stdout and stderr are terminals so that the control object is logged',
                'verification of the commitment by the debugger itself is decided by C05 on arbitrary control blocks, which includes the ones emitted here']
 OUTSIDE = ['n > 4 leaves in quick / n > 5 in thorough (measured: n = 5 returns unknown on some index, n = 6 exceeds 240 s - 2^n sort orders over nested hash terms); (tree code is uniform in n, depth grows)', 'the --privkey signing path (ENABLE_DANGEROUS is off in this build)', 'pseudo-terminal handling']
-BOUNDS = {'quick': 'n = 1..4 leaf scripts (all symbolic) x every spending index (and no index, compared with index 0); n = 5..13 with the spent leaf symbolic; leaf scripts of 3 bytes, and 28/29/252/253/254 bytes for the spent leaf; --tx/--txin (1 input, 1 output; version, lock time, sequence, output value, spent amount symbolic) key path and script path, with/without --sig, with spend arguments; internal key concrete (it only feeds uninterpreted functions and the hash); each script a 2-byte symbolic push; both parities of the output key', 'thorough': 'n = 1..5 all leaves symbolic; n = 5..16 every index and n in {20,24,32,33} six indices with the spent leaf symbolic (a full sweep to n = 24 took 94 min); long leaves 28..257 bytes; --tx/--txin up to n = 8'}
+BOUNDS = {'quick': 'n = 1..4 leaf scripts (all symbolic) x every spending index (and no index, compared with index 0); n = 5..8, 10, 12 with the spent leaf symbolic; leaf scripts of 3 bytes, and 28/29/252/253/254 bytes for the spent leaf; --tx/--txin (1 input, 1 output; version, lock time, sequence, output value, spent amount symbolic) key path and script path, with/without --sig, with spend arguments; internal key concrete (it only feeds uninterpreted functions and the hash); each script a 2-byte symbolic push; both parities of the output key', 'thorough': 'n = 1..5 all leaves symbolic; n = 5..16 every index and n in {20,24,32,33} six indices with the spent leaf symbolic (a full sweep to n = 24 took 94 min); long leaves 28..257 bytes; --tx/--txin up to n = 8'}
 
 TWEAKADD = z3.Function('xonly_tweak_add', z3.BitVecSort(256), z3.BitVecSort(256), z3.BitVecSort(264))       # (internal key, tweak) -> parity byte || x
 
@@ -106,7 +106,7 @@ def obligations(tier, seed):
         for i in range(n):
             for par in (2, 3): obs.append(dict(name='tap/n%d/index%d/parity%d' % (n, i, par), kind='tap', n=n, idx=i, parity=par, cost=2 ** n))
     # larger trees: only the spent leaf (and its neighbour) symbolic, the other leaves concrete - the sort order is explored along the proof path
-    for n in (list(range(5, 9)) + [10, 11, 13] if tier == 'quick' else list(range(5, 17)) + [20, 24, 32, 33]):
+    for n in (list(range(5, 9)) + [10, 12] if tier == 'quick' else list(range(5, 17)) + [20, 24, 32, 33]):
         for i in (range(n) if ((tier != 'quick' and n <= 16) or n <= 8) else sorted({0, 1, n // 2, n - 3, n - 2, n - 1})):
             obs.append(dict(name='tap/n%d/index%d/spent-leaf-symbolic' % (n, i), kind='tap', n=n, idx=i, parity=2 + (i & 1), symleaves=[i], cost=n))
     # leaf scripts at the compact-size boundary of the TapLeaf hash (252 / 253 / 254 bytes) and at the prevector direct/indirect boundary (28 / 29)
@@ -324,10 +324,12 @@ def run(E, ob):
             if v2 is True or viol is True: viol = True; what = w2 if v2 is True else what
             elif v2 is not False: viol = v2 if viol is False else z3.Or(viol, v2); what = (what + '+' if what else '') + w2
         if viol is False: continue
-        sol = z3.Solver(); sol.set('timeout', E.query_timeout_ms)
-        for cnd in f.pc: sol.add(cnd)
-        if viol is not True: sol.add(viol)
-        rr = sol.check(); res['queries'] += 1
+        for attempt in (1, 6):          # a query that comes back unknown is repeated once with a six-fold time limit (loaded machine)
+            sol = z3.Solver(); sol.set('timeout', E.query_timeout_ms * attempt)
+            for cnd in f.pc: sol.add(cnd)
+            if viol is not True: sol.add(viol)
+            rr = sol.check(); res['queries'] += 1
+            if rr != z3.unknown: break
         if rr == z3.sat:
             m = sol.model(); res['status'] = 'violated'; res['sat'] += 1
             res['note'] = 'n=%d index=%s: %s does not verify under BIP341' % (ob['n'], ob['idx'], what); res['key'] = 'C06:' + what
